@@ -3073,3 +3073,48 @@ Proof.
     apply place_rel_flag_with_products.
   - apply flag_with_products_flags.
 Qed.
+
+(* ------------------------------------------------------------------------------------------ *)
+(* The full statements on the repository as it is (facts read by the translator)               *)
+(* ------------------------------------------------------------------------------------------ *)
+
+Lemma safe_merge_is_deepest : safe_merge = MergeDeepest.
+Proof. reflexivity. Qed.
+Lemma dep_del_flags_producers : flags_producers trg_dep_del = true.
+Proof. vm_compute. reflexivity. Qed.
+
+Theorem update_meta_correct_repo g :
+  WF g -> Acyclic g -> FlagInv g ->
+  exists g', update_meta g = Some g' /\ AllCorrect g' /\ (exists f, keeps f /\ g' = mapg f g).
+Proof. intros. apply update_meta_correct_gen; try assumption. left. exact safe_merge_is_deepest. Qed.
+
+Theorem dispatch_only_eligible_repo g :
+  WF g -> Acyclic g -> FlagInv g -> HasHashInv g ->
+  exists g', update_meta g = Some g' /\ AllCorrect g' /\
+    forall s, In s (dispatch_set g') <-> (In s (g_steps g') /\ eligible_spec g' s = true).
+Proof. intros. apply dispatch_only_eligible_gen; try assumption. left. exact safe_merge_is_deepest. Qed.
+
+Theorem phase_end_nothing_eligible_repo g njob running done hs :
+  WF g -> Acyclic g -> FlagInv g -> HasHashInv g -> 0 < njob ->
+  job_loop_may_end njob running done hs (job_loop_pop njob running hs false g) = true ->
+  running = 0 /\ done = 0 /\
+  exists g', update_meta g = Some g' /\ AllCorrect g' /\
+             forall s, In s (g_steps g') -> eligible_spec g' s = false.
+Proof.
+  intros. eapply phase_end_nothing_eligible_gen; try eassumption. left. exact safe_merge_is_deepest.
+Qed.
+
+Theorem del_dep_sound_full_repo g d : WF g -> FlagInv g -> FlagInv (del_dep g d).
+Proof. intros. apply del_dep_sound_repo; try assumption. left. exact dep_del_flags_producers. Qed.
+
+Theorem executed_iff_needed_repo g :
+  WF g -> Acyclic g -> FlagInv g -> HasHashInv g ->
+  exists g', update_meta g = Some g' /\ AllCorrect g' /\
+    (forall s, In s (dispatch_set g') ->
+       ND_OPTIONAL < need_spec g' (s_key s) /\ g_threshold g' < need_spec g' (s_key s)) /\
+    (forall s, In s (g_steps g') ->
+       s_state s = ST_PENDING -> s_detached s = false -> s_deferred s = false ->
+       fst (safe_spec g' s) = true -> ready_spec g' (s_key s) = true -> res_unavailable g' s = false ->
+       (In s (dispatch_set g') <->
+        ND_OPTIONAL < need_spec g' (s_key s) /\ g_threshold g' < need_spec g' (s_key s))).
+Proof. intros. apply executed_iff_needed_gen; try assumption. left. exact safe_merge_is_deepest. Qed.
